@@ -812,6 +812,11 @@ func (ch *clientHost) checkRedirect(repo string, orig func(req *http.Request, vi
 		if len(via) >= 10 {
 			return errors.New("stopped after 10 redirects")
 		}
+		// net/http forwards the Authorization header to sub domains of the original host,
+		// credentials are only valid for the host that requested them
+		if len(via) > 0 && req.URL.Host != via[0].URL.Host {
+			req.Header.Del("Authorization")
+		}
 		// add auth headers if appropriate for the target host
 		hAuth := ch.getAuth(repo)
 		err := hAuth.UpdateRequest(req)
